@@ -289,6 +289,14 @@ Theorem C06_codec_call_constructors_agree : forall H (sig : Codec.polytype) (ins
      loadfunc_new (pl sig) (Some (fn inst)) (Some ta) = Ret (to_c06 (CodecOps.OLoadFunc (H:=H) sig inst ta))).
 Proof. exact call_constructors_agree. Qed.
 
+(* the direction of documents this library did not write: whatever serial operation is decoded (any payload, no
+   guard: a decoded operation is never a block over a non-sum nor an ExtOp), the derived facts of the decoded
+   operation are the answers of the model above for it *)
+Theorem C06_codec_decoded_facts_are_model_answers : forall H SH (h_dec : SH -> H) h_type (s : CodecOps.sop SH),
+  CodecOps.op_facts H h_type (CodecOps.op_deserialize H SH h_dec s) =
+  enc_reports (c06_reports H h_type (to_c06 (CodecOps.op_deserialize H SH h_dec s))).
+Proof. exact decoded_facts_are_reports. Qed.
+
 (* C05's sugar tag operations are the sugar constructors of the model above, with the specified signature *)
 Theorem C06_codec_sugar_tags : forall H (s : CodecOps.tagsugar),
   to_c06 (CodecOps.sugar_tag H s) =
@@ -399,3 +407,4 @@ Print Assumptions C06_codec_example_tag_sugar.
 Print Assumptions C06_codec_preserves_spec_signature_no_function_constants.
 Print Assumptions C06_codec_translation_faithful.
 Print Assumptions C06_codec_call_constructors_agree.
+Print Assumptions C06_codec_decoded_facts_are_model_answers.
